@@ -109,7 +109,7 @@ def main(tier):
     rep.functions = src_hash(mb.BaseMatcher.match, mb.BaseMatcher._build_node_path, mb.BaseMatcher._build_matching_path,
                              mb.BaseMatcher._create_start_nodes, mb.BaseMatching.key, mb.BaseMatcher._match_non_emitting_states)
     budget = 60 if tier == 'quick' else 900
-    res = gabs.run_all(rep, run_instance, instances(tier), budget, 16 * (100 if tier == 'quick' else 1500))
+    res = gabs.run_all(rep, run_instance, instances(tier), budget, 16 * (100 if tier == 'quick' else 900))
     rep.bounds = dict(graphs="oneway2, line2, oneway3, oneway4" if tier == 'quick' else "all digraphs <=3 nodes/<=4 edges, fork, oneway4",
                       T="1..3", config="max_dist / max_dist_init / min_prob_norm symbolic (so that a stop after observation 0, 1, .. is reachable); "
                       "both unique values in one path; three matcher families; non-emitting on/off; one width-1 instance")
